@@ -158,3 +158,26 @@ package guardiand
 //@   loop [range req.Messages]:
 //@     invariant [digests] len(digests) == len(req.Messages)
 //@     invariant [self] s != nil && req != nil && (forall i in 0..len(req.Messages) :: req.Messages[i] != nil)
+
+// ---------------------------------------------------------------- find-missing-messages (C12)
+
+// The stream whose gaps are reported is exactly the one the request names: the chain ids fit
+// a VAA chain id (no folding of 65538 onto 2) and the emitter address is a full 32-byte one
+// (a shorter one would be zero-padded on the right into some other emitter's stream).
+//@ func (s *nodePrivilegedService) FindMissingMessages(ctx context.Context, req *nodev1.FindMissingMessagesRequest) (out *nodev1.FindMissingMessagesResponse, err error)
+//@   props C12
+//@   requires s != nil && s.db != nil && req != nil && !req.RpcBackfill && db.wfStore(s.db)
+//@   ensures [result-or-error] (err == nil) == (out != nil)
+//@   ensures [stream-of-the-request] err == nil ==> req.EmitterChain < 65536 && req.TargetChain < 65536 && hexok(req.EmitterAddress) && len(unhex(req.EmitterAddress)) == 32
+//@   ensures [bounds-of-that-stream] err == nil ==> forall q uint64 :: stored(s.db, struct("vaa.VAAID", req.EmitterChain, from32(unhex(req.EmitterAddress)), req.TargetChain, q)) ==> out.FirstSequence <= q && q <= out.LastSequence
+//@   modifies lib:db.store, fresh nodev1.FindMissingMessagesResponse.*, fresh map[uint64]bool, fresh vaa.VAA.*, fresh vaa.Signature.*, fresh lib:bytes.Reader.s, fresh lib:bytes.Reader.i
+//@   nopanic
+//@   replay guardiand_findmissing.go.tmpl
+//@   at [emitterChain := vaa.ChainID(req.EmitterChain)]: assert [address-of-the-request] emitterAddress == from32(unhex(req.EmitterAddress))
+//@   loop [range ids]#2:
+//@     invariant [one-line-per-missing] len(resp) == len(ids)
+
+// backfill over HTTP from other nodes: outside the property (not verified)
+//@ func (s *nodePrivilegedService) fetchMissing(ctx context.Context, nodes []string, c *http.Client, emitterChain vaa.ChainID, addr string, targetChain vaa.ChainID, seq uint64) (ok bool, err error)
+//@   assume-contract
+//@   modifies chan
